@@ -51,7 +51,9 @@ class Registry:
         self.dep_classes = {}       # cls -> {method: handler(engine, recv, args, node)}
         self.class_attrs = {}
         self.lemmas = []            # (name, props, fn() -> (hyps, goal))
-        self.entity_invariants = {}  # cls -> fn(engine, st, ref) -> [z3]
+        self.entity_invariants = {}
+        self.builders = {}          # cls -> fn(engine) -> ObjV (worlds that cannot be built by running __init__)
+        self.inline_ok = set()  # cls -> fn(engine, st, ref) -> [z3]
 
     def contract(self, qual, **kw):
         c = Contract(qual, **kw)
